@@ -101,9 +101,59 @@ func (f *format) cutsReplay(input string) string {
 	return f.cutsRun(unhx(fl[1]))
 }
 
+// =================== C02: every single cut (and byte-at-a-time) of a longer document ===================
+// scut<fmt> \t <dochex> \t WHOLE <obs> ALL <n> | DIFF <mode> <position> <obs>
+func (f *format) scutRun(doc []byte) string {
+	whole := cutObs(f.parseRun("P", -1, [][]byte{doc}))
+	if strings.HasSuffix(whole, "HANG") || strings.HasSuffix(whole, "PANIC") {
+		return fmt.Sprintf("WHOLE %s ALL 0", whole)
+	}
+	n := 0
+	for i := 1; i < len(doc); i++ {
+		o := cutObs(f.parseRun("W", -1, [][]byte{doc[:i:i], doc[i:len(doc):len(doc)]}))
+		n++
+		if o != whole {
+			return fmt.Sprintf("WHOLE %s DIFF W %d %s", whole, i, o)
+		}
+	}
+	if len(doc) > 0 {
+		var cs [][]byte
+		for i := range doc {
+			cs = append(cs, doc[i:i+1:i+1])
+		}
+		for _, mode := range []string{"W", "R"} {
+			o := cutObs(f.parseRun(mode, -1, cs))
+			n++
+			if o != whole {
+				return fmt.Sprintf("WHOLE %s DIFF %s 0 %s", whole, mode, o)
+			}
+		}
+	}
+	return fmt.Sprintf("WHOLE %s ALL %d", whole, n)
+}
+
+func (f *format) scutCase(r *rng) string {
+	var doc []byte
+	for tries := 0; tries < 20; tries++ {
+		if r.chance(4, 5) {
+			doc = f.genItem(r)
+		} else {
+			doc = f.genDoc(r)
+		}
+		if len(doc) <= 700 {
+			break
+		}
+		doc = doc[:700]
+	}
+	return fmt.Sprintf("scut%s\t%s\t%s", f.name, hx(doc), f.scutRun(doc))
+}
+
 func init() {
 	for _, n := range fmtNames {
 		n := n
+		kinds["scut"+n] = kindT{
+			func(r *rng) string { return formats[n].scutCase(r) },
+			func(s string) string { return formats[n].scutRun(unhx(strings.Fields(s)[0])) }}
 		kinds["cuts"+n] = kindT{
 			func(r *rng) string {
 				max := 9
